@@ -179,7 +179,7 @@ func isFieldOf(v ssa.Value, pkgPath, typ, field string) bool {
 		base = p.Elem()
 	}
 	n, ok := base.(*types.Named)
-	if !ok || n.Obj().Pkg() == nil || n.Obj().Pkg().Path() != pkgPath || n.Obj().Name() != typ {
+	if !ok || n.Obj().Pkg() == nil || n.Obj().Pkg().Path() != pkgPath || refTypeName(n.Obj()) != typ {
 		return false
 	}
 	st, _ := n.Underlying().(*types.Struct)
@@ -208,7 +208,7 @@ func fieldNameOf(v ssa.Value) (pkgPath, typ, field string) {
 	if st == nil || idx >= st.NumFields() {
 		return
 	}
-	return n.Obj().Pkg().Path(), n.Obj().Name(), st.Field(idx).Name()
+	return n.Obj().Pkg().Path(), refTypeName(n.Obj()), st.Field(idx).Name()
 }
 
 const relPkg = helmMod + "/pkg/release/v1"
@@ -218,7 +218,7 @@ func isNamedPtr(t types.Type, pkgPath, name string) bool {
 		t = p.Elem()
 	}
 	n, ok := t.(*types.Named)
-	return ok && n.Obj().Pkg() != nil && n.Obj().Pkg().Path() == pkgPath && n.Obj().Name() == name
+	return ok && n.Obj().Pkg() != nil && n.Obj().Pkg().Path() == pkgPath && refTypeName(n.Obj()) == name
 }
 
 func isReleasePtr(t types.Type) bool { return isNamedPtr(t, relPkg, "Release") }
